@@ -274,6 +274,9 @@ def gen_shapes(tier, seed):
                 others = [j for j in range(i) if j not in b]
                 if others:
                     b.append(rng.choice(others))
+                    others = [j for j in range(i) if j not in b]
+                    if others and rng.random() < 0.35:
+                        b.append(rng.choice(others))          # three bases
             nd = rng.choice((0, 1, 1, 2))
             ext = nd > 0 and rng.random() < 0.7
             deco = rng.randrange(nd) if (nd and not ext and rng.random() < 0.25) else None
@@ -306,7 +309,7 @@ def main(tier, seed):
     results = runner.pmap("props.c17", "explore_shape", shapes, kw, chunksize=2)
     return runner.finish(
         PID, tier, seed, t0, results,
-        bounds=dict(argument_classes=3, user_classes="2-5 per program (OvldBase or metaclass=OvldMC root, subclasses with 1-2 bases, at most one plain "
+        bounds=dict(argument_classes=3, user_classes="2-5 per program (OvldBase or metaclass=OvldMC root, subclasses with 1-3 bases, at most one plain "
                     "mixin class without the metaclass)", method_name="f, or the special method __call__ (every 5th program)", definitions="0-3 same-named definitions per class body over K0/K1/K2/object/list (one of them possibly decorated @ovld(priority=0)), "
                     "extend_super on any one definition of 70% of the subclasses that define the method, of 25% of the roots and 50% of the plain mixin "
                     "classes (nothing to extend: the marker survives and a later class listing it as a non-first base merges it)",
